@@ -454,7 +454,7 @@ func genDrawing(r *simrt.Rand, l latticeCfg, nfonts int) *Drawing {
 			it.Kind = "path"
 			it.Shape = genShape(r, l)
 			if r.Bool(0.4) {
-				it.Paint = 1 + r.Intn(8) // 5-8: paint objects shared by all canvases of the run
+				it.Paint = 1 + r.Intn(9) // 5-9: paint objects shared by all canvases of the run
 			}
 			if r.Bool(0.6) {
 				it.SW = []float64{0.2, 0.5, 1.5}[r.Intn(3)]
